@@ -24,13 +24,51 @@ def hx(s):
 
 # ------------------------------------------------------------------ generators
 
+def expand_resend(line):
+    """r:<c|W> sends the message OBJECT of the last s / z / r operation again: for the model and for the predicate
+    that is a send of the same message value (same byte order, same preset - the caller never changed it, same
+    validity) through the API named in the op"""
+    toks = line.split(" ")
+    if toks[0] not in ("hist", "rhist") or not any(t.startswith("r:") for t in toks):
+        return line
+    out = [toks[0]]
+    prev = None
+    for t in toks[1:]:
+        f = t.split(":")
+        if f[0] == "r" and prev is not None:
+            t = "s:%s:%s:%s:%s" % (prev[0], prev[1], prev[2], f[1])
+        elif f[0] == "s":
+            prev = (f[1], f[2], f[3])
+        elif f[0] == "z":
+            prev = (f[1], f[2], "g")
+        out.append(t)
+    return " ".join(out)
+
+
+def drop_orphan_resends(ops):
+    """a resend needs a message object made earlier in the history"""
+    out, have = [], False
+    for o in ops:
+        if o[0] in "sz":
+            have = True
+        if o.startswith("r:") and not have:
+            continue
+        out.append(o)
+    return out or ["a"]
+
+
 def gen_hist(r, maxlen):
     n = r.choice([1, 2, 3, 5, 10, 20, 50, 100, 200]) if maxlen >= 200 else r.randrange(1, maxlen + 1)
     ops = []
     counter = 1
+    resend = r.choice([0.0, 0.0, 0.1, 0.3])
     for _ in range(n):
         k = r.random()
-        if k < 0.35:
+        if ops and r.random() < resend:
+            # the message object of the last s / z / r operation once more (the caller does not touch it in between)
+            ops.append("r:%s" % r.choice("cW"))
+            counter += 1
+        elif k < 0.35:
             ops.append("a")
             counter += 1
         elif k < 0.70:
@@ -61,9 +99,9 @@ def gen_hist(r, maxlen):
     if n >= 3 and r.random() < 0.1:
         # the peer goes away somewhere in the second half; afterwards only allocations, sends (which fail) and bad descriptors
         at = r.randrange(n // 2, n)
-        tail = [o for o in ops[at:] if o == "a" or o.startswith("s:") or o.startswith("f:")]
+        tail = [o for o in ops[at:] if o == "a" or o.startswith("s:") or o.startswith("f:") or o.startswith("r:")]
         ops = ops[:at] + ["g"] + tail
-    return "hist " + " ".join(ops)
+    return "hist " + " ".join(drop_orphan_resends(ops))
 
 
 def gen_boundary_hist(r):
@@ -93,8 +131,14 @@ def gen_rhist(r):
     ops = []
     for _ in range(n):
         k = r.random()
-        ops.append("a" if k < 0.4 else "s:%s:%s:%s:c" % (r.choice("lB"), "-" if k < 0.8 else str(r.randrange(1, U32)), "g" if r.random() < 0.9 else "b"))
-    return "rhist " + " ".join(ops)
+        if k < 0.3:
+            ops.append("a")
+        elif k < 0.55:
+            # the same message object again: through RpcConn::send_message(&mut msg) (c) or through the SendConn under it (W)
+            ops.append("r:%s" % r.choice("ccW"))
+        else:
+            ops.append("s:%s:%s:%s:%s" % (r.choice("lB"), "-" if k < 0.9 else str(r.randrange(1, U32)), "g" if r.random() < 0.9 else "b", r.choice("cccW")))
+    return "rhist " + " ".join(drop_orphan_resends(ops))
 
 
 ELEMS = ["a", "Ab", "x_1", "org", "example", "Iface9", "_u", "Z" * 20]
@@ -160,11 +204,25 @@ def hist_predicate(line, out):
     write this history needs. The serials the connection hands out (alloc_serial, ctx.serial() / returned serial of
     every message without a preset, completed or not) must be non-zero, < 2^32 and strictly increasing; a preset
     serial is used as it is; reported == on the wire; a panic only when the serials are used up."""
-    ops = line.split(" ")[1:]
+    ops = expand_resend(line).split(" ")[1:]
     toks = out.split(" ")
     if "NOPARTIAL" in toks or "NOZERO" in toks:
         return None
     bad = []
+    # the caller's message after the call: the library takes &MarshalledMessage (or &mut in RpcConn::send_message) and
+    # must leave the preset serial (or its absence) as the caller made it; otherwise the next send of the same object
+    # is not a send 'without a preset serial' any more
+    written = []
+    for i, t in enumerate(toks):
+        parts = t.split(":")
+        m = [x for x in parts if x.startswith("mut")]
+        if m:
+            pre = ops[i].split(":")[2] if i < len(ops) and ops[i].count(":") >= 2 else "?"
+            written.append("%s -> %s (operation %d)" % (pre, m[0][3:], i + 1))
+            toks[i] = ":".join(x for x in parts if not x.startswith("mut"))
+    if written:
+        bad.append("the send wrote to the caller's message: dynheader.serial before -> after the call: " + ", ".join(written[:4])
+                   + (" and %d more" % (len(written) - 4) if len(written) > 4 else ""))
     st = {"last": 0, "hidden": 0}
 
     def fresh(ser, what):
@@ -321,7 +379,7 @@ def parse_colon(s):
 def strip_api(line):
     """the line as the model driver reads it: no API choice, no peer; after the peer is gone (g) every
     send that marshals is a send that fails with an I/O error (f)"""
-    toks = line.split(" ")
+    toks = expand_resend(line).split(" ")
     if toks[0] not in ("hist", "rhist"):
         return line
     out = ["hist"]
@@ -347,6 +405,7 @@ def normalise_impl(out):
     for t in out.split(" "):
         if t == "g":
             continue
+        t = ":".join(x for x in t.split(":") if not x.startswith("mut"))
         res.append("f:" + t[3:] if t.startswith("io:") else t)
     return res
 
@@ -367,10 +426,12 @@ def coq_crosscheck(ctx, lines, impl):
     """a few short histories evaluated by coqc itself (vm_compute run_ops) and compared with what the
     implementation did: guards the extraction and the OCaml driver"""
     import re
-    cand = [(l, o) for l, (o, _) in zip(lines, impl)
+    cand = [(l, o) for l, (o, _) in zip([expand_resend(x) for x in lines], impl)
             if l.startswith("hist ") and o and "PANIC" not in o and "NOPARTIAL" not in o and 3 <= len(l.split(" ")) <= 14
-            and all(t == "a" or t[0] in "sp" for t in l.split(" ")[1:])]
-    picked = [c for c in cand if " p:" in c[0]][:5] + [c for c in cand if " p:" not in c[0]][:5]
+            and all(t == "a" or t[0] in "sp" for t in l.split(" ")[1:]) and ":mut" not in o]
+    resent = set(expand_resend(x) for x in lines if " r:" in x)
+    picked = ([c for c in cand if " p:" in c[0]][:5] + [c for c in cand if " p:" not in c[0] and c[0] not in resent][:5]
+              + [c for c in cand if c[0] in resent][:4])
     if not picked:
         return
     terms = []
@@ -432,8 +493,12 @@ def run(ctx):
                 "Sends that are NOT completed keep their serial: refused at zero bytes on a socket the harness filled, context "
                 "dropped (z); force_finish after a real partial write (q); a closed attached descriptor -> EBADF through "
                 "write_all + force_finish_on_error or send_message_write_all (f); the peer shut down -> EPIPE for every "
-                "later send (g); each followed by further sends/allocations. Histories through RpcConn::alloc_serial / "
-                "RpcConn::send_message (rhist); DuplexConn::send_hello after 0-40 allocations against a peer whose reply "
+                "later send (g); each followed by further sends/allocations. The same message OBJECT sent again (r: the harness "
+                "keeps the MarshalledMessage of the last s / z / r operation and passes it to send_message+write_all, "
+                "send_message_write_all or RpcConn::send_message(&mut msg) once more, up to dozens of times, with allocations "
+                "and other sends in between; for the model that is OpSend of the same message value) and, after every send, "
+                "the caller's msg.dynheader.serial compared with what the caller put there. Histories through RpcConn::alloc_serial / "
+                "RpcConn::send_message with resends through RpcConn and through the SendConn under it (rhist); DuplexConn::send_hello after 0-40 allocations against a peer whose reply "
                 "carries the Hello's serial, another one, or none (hello). Histories that start 1-5 serials before the end of "
                 "the serial space (x<n> = n alloc_serial calls, about 6 s each; the model driver fast-forwards with alloc_many, "
                 "theorem C13_alloc_many) and go on with sends up to and beyond the 'run out of serials' panic. "
@@ -519,8 +584,11 @@ def run(ctx):
             viol = hello_predicate(line, out)
             differs = out != mo
         elif is_hist:
-            ops = line.split(" ")[1:]
-            kinds = {("a" if o == "a" else o[0] if o[0] in "xgzqf" else "r" if o.startswith("p:") else "b" if ":b:" in o else "p" if o.split(":")[2] != "-" else "s") for o in ops}
+            nresend = sum(1 for o in line.split(" ")[1:] if o.startswith("r:"))
+            ops = expand_resend(line).split(" ")[1:]
+            ctx.count("ops:same_message_object_sent_again", nresend)
+            kinds = {("R",)} if nresend else set()
+            kinds |= {("a" if o == "a" else o[0] if o[0] in "xgzqf" else "r" if o.startswith("p:") else "b" if ":b:" in o else "p" if o.split(":")[2] != "-" else "s") for o in ops}
             ctx.case(line, nontrivial=len(kinds) >= 2,
                      sample={"input": line[:150], "impl": out[:150]} if len(ops) in (5, 10) else None)
             ctx.count("hist:len<=10" if len(ops) <= 10 else "hist:len<=50" if len(ops) <= 50 else "hist:len<=200")
